@@ -19,7 +19,12 @@ def main():
     try:
         mod = importlib.import_module('props.' + a.pid.lower())
         if a.replay:
-            return mod.replay(a.replay)
+            import json
+            d = json.load(open(a.replay))
+            f = d.get('failure') or {}
+            print('replaying', a.replay, '-> signature', f.get('signature', '(broken obligation / tie)'))
+            os.environ['VERIF_REPLAY_SIG'] = f.get('signature', '')
+            return mod.run(d.get('tier', 'quick'), int(d.get('seed', 0)))
         return mod.run(a.tier, seed)
     except core.Infra as e:
         print('INFRA-ERROR', e)
